@@ -270,6 +270,11 @@ def getitem(I, st, ov, kv, ctx):
             for (q, b) in I.branch(st, I.truth(has)):
                 if b:
                     out.append((q, dict_get(I, q, ov, kv)))
+                elif q.heap[ov.oid].fields.get("$default_list"):
+                    # collections.defaultdict(list): a missing key is given a new empty list
+                    new_list = I.make_list(q, [])
+                    dict_store(I, q, ov, kv, new_list)
+                    out.append((q, new_list))
                 else:
                     out.append((q, Raise("KeyError")))
             return out
